@@ -53,7 +53,7 @@ package airgapped
 //@   nosafety
 //@   requires wfMachine(am)
 //@   modifies *
-//@   modifies $handlerErr, $dealsOK, $responsesOK, $keyrings, $handled, $reader, $readerSeed, $ciphers, $bufc
+//@   modifies $handlerErr, $dealsOK, $responsesOK, $keyrings, $handled, $reader, $readerSeed, $ciphers, $bufc, $suites, $suiteSeed
 //@   epilogue $handled = (result1 == nil)
 //@   ensures $logged == old($logged)
 
@@ -83,13 +83,52 @@ package airgapped
 //@   ensures[C11.report.event] result == nil && old(o.Type) == "state_dkg_responses_await_confirmations" ==> o.Event == "event_dkg_response_confirm_canceled_by_error"
 //@   ensures[C11.report.event] result == nil && old(o.Type) == "state_dkg_master_key_await_confirmations" ==> o.Event == "event_dkg_master_key_confirm_canceled_by_error"
 
+// a replay re-executes the logged operations in log order without logging them again (several restarts in one
+// ceremony must not make the log grow)
+//@ func (*Machine).ReplayOperationsLog
+//@   nosafety
+//@   safety C12
+//@   requires wfMachine(am)
+//@   modifies *
+//@   modifies $handled, $handlerErr, $dealsOK, $responsesOK, $keyrings, $reader, $readerSeed, $ciphers, $bufc, $files, $suites, $suiteSeed
+//@   loop 0 invariant $logged == old($logged) && wfMachine(am)
+//@   assert@call ProcessOperation[C12.replay.nolog] !storeOperation
+//@   ensures[C12.replay.nolog] $logged == old($logged)
+
+// the machine's suite (and with it the random stream the long-term key is drawn from) is made anew from the seed
+// whenever the seed is set or loaded: the same mnemonic gives the same stream position, hence the same key pair
+//@ ghost var $suites int
+//@ ghost var $suiteSeed bytesvalue
+//@ func github.com/corestario/kyber/pairing/bls12381.NewBLS12381Suite
+//@   assumed
+//@   pure
+//@   epilogue $suites = old($suites) + 1
+//@   epilogue $suiteSeed = content(seed)
+//@ func (*Machine).SetBaseSeed
+//@   nosafety
+//@   safety C12
+//@   requires am != nil
+//@   modifies *
+//@   modifies $suites, $suiteSeed
+//@   ensures[C12.seed.suite] result == nil ==> $suites > old($suites) && $suiteSeed == content(am.baseSeed)
+//@ func (*Machine).loadBaseSeed
+//@   nosafety
+//@   safety C12
+//@   requires am != nil
+//@   modifies *
+//@   modifies $suites, $suiteSeed
+//@   ensures[C12.seed.suite] result == nil ==> $suites > old($suites) && $suiteSeed == content(am.baseSeed)
+
 //@ func (*Machine).ProcessOperation
 //@   nosafety
 //@   requires wfMachine(am)
 //@   prologue $handled = false
 //@   modifies *
-//@   modifies $handlerErr, $dealsOK, $responsesOK, $keyrings, $logged, $reader, $readerSeed, $ciphers, $bufc
+//@   modifies $handlerErr, $dealsOK, $responsesOK, $keyrings, $logged, $reader, $readerSeed, $ciphers, $bufc, $suites, $suiteSeed
 //@   modifies $files
+// (trusted, not proved here: the handlers add a round to dkgInstances only after InitDKGInstance succeeded and never
+// store a nil instance, so the rounds known to the machine stay fully initialised across an operation)
+//@   trusted wfMachine(am)
 //@   ensures[C12.publish] result1 == nil ==> $files == old($files) + 1
 //@   ensures[C12.log.once] $logged <= old($logged) + 1
 //@   ensures[C12.log.success,C18.airgapped.noop] result1 != nil && !$handled ==> $logged == old($logged)
@@ -106,7 +145,7 @@ package airgapped
 //@   requires wfMachine(am) && o != nil
 //@   loop 0 invariant forall j int :: 0 <= j && j <= $i ==> payload[j] != nil
 //@   modifies *
-//@   modifies $handlerErr, $reader, $readerSeed
+//@   modifies $handlerErr, $reader, $readerSeed, $suites, $suiteSeed
 //@   epilogue $handlerErr = (result != nil)
 //@   assert@call InitDKGInstance[C04.round.entropy] content(seed) == acontent(loc(dkgSeed), 32)
 
